@@ -112,5 +112,47 @@ class TrioPatch:
         return False
 
 
+def _with_deadlock_detection(clock: MockClock) -> MockClock:
+    """Make `clock` turn "every task blocked, no deadline anywhere" into SimDeadlock.
+
+    With autojump_threshold=0 trio's run loop calls `clock._autojump()` whenever nothing is
+    runnable; stock MockClock does nothing when there is no deadline to jump to, and the
+    loop then spins forever (get_events(0), _autojump(), ...).  Nothing outside the
+    simulation can wake a task (no real I/O, no threads; signals are injected by the
+    simulator at task steps), so that state is a genuine deadlock.  The exception leaves
+    trio.run() wrapped in TrioInternalError (see `deadlock_of`).  (MockClock is final, so
+    the method is replaced on the instance.)"""
+    import math
+
+    import trio
+
+    from .aio_loop import SimDeadlock
+
+    orig = clock._autojump
+
+    def _autojump() -> None:
+        st = trio.lowlevel.current_statistics()
+        if st.tasks_runnable == 0 and st.run_sync_soon_queue_size == 0 and st.seconds_to_next_deadline == math.inf:
+            raise SimDeadlock("trio: all tasks blocked and no deadline")
+        orig()
+
+    clock._autojump = _autojump  # type: ignore[method-assign]
+    return clock
+
+
+def deadlock_of(exc: BaseException) -> bool:
+    """Is `exc` the TrioInternalError that SimClock's deadlock detection turned into?"""
+    from .aio_loop import SimDeadlock
+
+    seen = 0
+    e: BaseException | None = exc
+    while e is not None and seen < 6:
+        if isinstance(e, SimDeadlock):
+            return True
+        e = e.__cause__ or e.__context__
+        seen += 1
+    return False
+
+
 def make_clock() -> MockClock:
-    return MockClock(autojump_threshold=0)
+    return _with_deadlock_detection(MockClock(autojump_threshold=0))
